@@ -11,6 +11,17 @@ demo_mut=$( /venv/bin/python "$SRC/demo.py" "$WT" >/tmp/cs/${C}_$V.mut.log 2>&1;
 OMP_NUM_THREADS=2 /venv/bin/python -m pytest -q -rf -p no:cacheprovider --timeout=900 >/tmp/cs/${C}_$V.t1.log 2>&1; t1=$( tail -1 /tmp/cs/${C}_$V.t1.log )
 OMP_NUM_THREADS=2 /venv/bin/python -m pytest -q -rf -p no:cacheprovider --timeout=900 >/tmp/cs/${C}_$V.t2.log 2>&1; t2=$( tail -1 /tmp/cs/${C}_$V.t2.log )
 grep -h '^FAILED' /tmp/cs/${C}_$V.t1.log /tmp/cs/${C}_$V.t2.log
+# test_krylov.py::test_eigh_krylov fails now and then on the unchanged tree as well (unseeded random matrix; seen with patches that do
+# not touch krylov.py): a run whose only failure is that test is repeated once
+for k in 1 2; do
+  if grep -q '^FAILED' /tmp/cs/${C}_$V.t$k.log && ! grep '^FAILED' /tmp/cs/${C}_$V.t$k.log | grep -qv 'test_eigh_krylov'; then
+    if ! git diff --name-only | grep -q krylov; then
+      OMP_NUM_THREADS=2 /venv/bin/python -m pytest -q -rf -p no:cacheprovider --timeout=900 >/tmp/cs/${C}_$V.t$k.log 2>&1
+      [ $k = 1 ] && t1=$( tail -1 /tmp/cs/${C}_$V.t1.log ) || t2=$( tail -1 /tmp/cs/${C}_$V.t2.log )
+      echo "(run $k repeated after a lone test_eigh_krylov failure)"
+    fi
+  fi
+done
 cd /; git -C /repo worktree remove --force "$WT"
 echo "$C $V demo_clean=$demo_clean demo_mut=$demo_mut tests1='$t1' tests2='$t2'"
 case "$t1$t2" in *failed*|*error*) echo "REJECTED: tests fail"; exit 1;; esac
